@@ -49,7 +49,7 @@ theorem ah_parse_cases (b : Bytes) :
       · have hle : 4 * (hd.length + 2) - 12 ≤ b.length - 12 := by simpa [Cursor.canRead] using hcr
         simp only [hcr, Bool.not_true, Bool.false_eq_true, if_false]
         have hci : (⟨b.drop 12, b.length - 12⟩ : Cursor).Inv := by simp [Cursor.Inv]
-        rcases read_spec' ⟨b.drop 12, b.length - 12⟩ (4 * (hd.length + 2) - 12) hci with ⟨e, _⟩ | ⟨_, hlt⟩
+        rcases read_closed ⟨b.drop 12, b.length - 12⟩ (4 * (hd.length + 2) - 12) hci with ⟨e, _⟩ | ⟨_, hlt⟩
         · right
           simp only [e, toBool_mk, List.drop_drop]
           refine ⟨by omega, by omega, by omega, ?_⟩
